@@ -265,7 +265,15 @@ func RunFaultCase(rt *rapid.T, env *Env, prop *SimProp, faults func(w *World) []
 				continue
 			}
 			script := append([]Op(nil), base[:k]...)
-			script = append(script, Op{K: "par", Par: []Op{fault[0], base[k]}})
+			par := []Op{fault[0], base[k]}
+			if base[k].K == "tokreset" {
+				// the fan-out of a token reset over the connections is short: repeat it
+				// so that the disposal has something to overlap with
+				for r := 0; r < 30; r++ {
+					par = append(par, base[k])
+				}
+			}
+			script = append(script, Op{K: "par", Par: par})
 			script = append(script, base[k+1:]...)
 			vw, err := NewWorld(cfg)
 			if err != nil {
